@@ -90,6 +90,16 @@ def gen_c11(seed, ptr):
     rng.shuffle(obs_items)
     for m in mods:
         files["/".join(m) + ".pyxis"] = "\n".join(texts[tuple(m)]) + "\n"
+    if len(obs) > 1 and rng.random() < 0.7:
+        # the enclosing module of a nested observer defines the same names; it is neither imported nor
+        # otherwise in scope, so it must not take part in the observer's lookups
+        parent_items = []
+        for n in names:
+            if rng.random() < 0.7 and size_pool:
+                k = size_pool.pop()
+                defs[tuple(obs[:-1] + [n])] = k
+                parent_items.append("pub type %s { pub a: [u8; %d] }" % (n, k))
+        files["/".join(obs[:-1]) + ".pyxis"] = "\n".join(parent_items) + "\n"
     files["/".join(obs) + ".pyxis"] = "".join("use %s;\n" % "::".join(u) for u in uses) + "\n".join(obs_items) + "\n"
     exp = dict(types={}, enums={}, vftables={}, funcs={}, externs={}, miss=None if ok else "unresolvable name",
                c11=dict(obs="::".join(obs + ["Obs"]), fields=[(f, n, list(b) if b else None, s) for f, n, b, s in expect_fields],
